@@ -80,6 +80,8 @@ def oracle_final(prog, n, p, extra):
 
 
 def run(ctx):
+    from .. import xfeat
+    xfeat.sweep(ctx, "C05")      # cross-feature compositions (pv/xfeat.py)
     cfg = e1.standard_configs(ctx)
     extras = e1.sweep(ctx, E.depth1_programs(include_assert=False), cfg, "pv.checks.c05.oracle", modes=MODES)
     from ..recorder import BN128
@@ -106,5 +108,8 @@ def run(ctx):
 
 
 def replay(case):
+    if isinstance(case, dict) and case.get("xfeat"):
+        from .. import xfeat
+        return xfeat.replay(case, "C05")
     out = X.replay_case(case, oracle)
     return out
